@@ -140,11 +140,17 @@ def extract(repo="/repo", config="default", force=False, log=sys.stderr):
                 try:
                     same_repo = json.load(open(meta)).get("repo") == repo
                 except Exception:
-                    same_repo = True
+                    # no META: either a directory another process is filling right now, or debris of a killed run
+                    try:
+                        same_repo = (time.time() - os.path.getmtime(os.path.join(SCRATCH, d))) > 6 * 3600
+                    except OSError:
+                        same_repo = False
                 if same_repo:
                     shutil.rmtree(os.path.join(SCRATCH, d), ignore_errors=True)
         shutil.rmtree(out, ignore_errors=True)
         os.makedirs(out)
+        with open(os.path.join(out, "META"), "w") as f:
+            json.dump({"repo": repo, "tree_hash": th, "config": config, "complete": False}, f)
         target = os.path.join(SCRATCH, "target-" + hashlib.sha256(repo.encode()).hexdigest()[:8] + ("" if config == "default" else "-" + config))
         _rm_member_fingerprints(target)
         env = dict(os.environ)
@@ -175,7 +181,7 @@ def extract(repo="/repo", config="default", force=False, log=sys.stderr):
             missing = [e for e in expected if not os.path.exists(os.path.join(out, e))]
             raise ExtractError("driver did not (re)write fact files: %s" % missing)
         with open(os.path.join(out, "META"), "w") as f:
-            json.dump({"repo": repo, "tree_hash": th, "config": config, "wall_s": time.time() - t0}, f)
+            json.dump({"repo": repo, "tree_hash": th, "config": config, "complete": True, "wall_s": time.time() - t0}, f)
         print("[wxverif] extraction done in %.1fs" % (time.time() - t0), file=log)
         return out
     finally:
